@@ -60,7 +60,7 @@ CHECKS['C12'] = dict(
     assumptions=COMMON_ASSUME + ['model/ref_aes.cpp is a correct reading of FIPS-197 and specs.md ch.3 (self-tested against FIPS-197 App.B, the CPU AESENC/AESDEC instructions and the Blake2b derivation of the printed keys)'],
     stages=[
         dict(name='aes', harness=H('c12', ['harness/c12_aes.cpp'], model=True),
-             plan={'quick': 'tables=1,round=400000,gen=12000,hash=12000,gen_big=32,hash_big=32',
+             plan={'quick': 'tables=1,round=2000000,gen=60000,hash=60000,gen_big=64,hash_big=64',
                    'thorough': 'tables=1,round=50000000,gen=1000000,hash=1000000,gen_big=4000,hash_big=4000'}),
         dict(name='fuzz', kind='fuzz', target='aes', harness=H('fz_aes', ['fuzz/fuzz_aes.cpp'], variant='fuzz', model=True), max_len=600,
              runs={'quick': 80000, 'thorough': 10000000}),
@@ -96,9 +96,9 @@ CHECKS['C07'] = dict(
     assumptions=COMMON_ASSUME + ['reading of InstructionByteCode (type, idst/isrc identity) as "writes register"; JIT read-back only recognises the 0F 84 rel32 form (else inconclusive, never an alarm)'],
     stages=[
         dict(name='branch', harness=H('c07', ['harness/c07_branch.cpp'], cflags=['-fno-access-control']),
-             plan={'quick': 'arith=3000000,structure=20000,dynamic=20000', 'thorough': 'arith=200000000,structure=1000000,dynamic=1000000'}),
+             plan={'quick': 'arith=12000000,structure=60000,dynamic=60000', 'thorough': 'arith=200000000,structure=1000000,dynamic=1000000'}),
         dict(name='jit', harness=H('c04', ['harness/c04_jit.cpp'], ldflags=PROG_LD),
-             plan={'quick': 'branchy=4000', 'thorough': 'branchy=200000'}, timeout={'quick': 1800, 'thorough': 6 * 3600}),
+             plan={'quick': 'branchy=8000', 'thorough': 'branchy=200000'}, timeout={'quick': 1800, 'thorough': 6 * 3600}),
     ],
 )
 
@@ -148,7 +148,7 @@ CHECKS['C09'] = dict(
     assumptions=COMMON_ASSUME + ['model/ref_superscalar.cpp: the generator details specs.md 6.3 leaves open (draw order, look-ahead 4, throw-away limit 256) are pinned to upstream; validated by the 10 published digests'],
     stages=[
         dict(name='keys', harness=H('c09', ['harness/c09_superscalar.cpp'], model=True),
-             plan={'quick': 'keys=16000', 'thorough': 'keys=2000000'}),
+             plan={'quick': 'keys=48000', 'thorough': 'keys=2000000'}),
     ],
 )
 
@@ -177,7 +177,7 @@ CHECKS['C08'] = dict(
     assumptions=COMMON_ASSUME + ['model/ref_superscalar.cpp + ref_argon2.cpp as reading of specs.md ch.6-7 (validated by the published digests)', 'page-granular detection of stray stores outside opened pages, byte-granular inside them'],
     stages=[
         dict(name='ranges', harness=H('c08', ['harness/c08_dataset.cpp'], model=True),
-             plan={'quick': 'ranges=3000', 'thorough': 'ranges=150000,full=all'}),
+             plan={'quick': 'ranges=6000', 'thorough': 'ranges=150000,full=all'}),
     ],
 )
 
@@ -280,7 +280,7 @@ CHECKS['C17'] = dict(
                                  'big-endian byte order paths of blake2/endian.h are not reachable on this host'],
     stages=[
         dict(name='portable', harness=H('c17', ['harness/c17_portable.cpp'], ldflags=PROG_LD), env=lambda V: {'VERIF_PORTABLE_SO': V.ensure_portable_so()},
-             plan={'quick': 'functions=400000,programs=320,hashes=16', 'thorough': 'functions=100000000,programs=24000,hashes=960'}),
+             plan={'quick': 'functions=1600000,programs=640,hashes=32', 'thorough': 'functions=100000000,programs=24000,hashes=960'}),
     ],
 )
 
@@ -296,7 +296,7 @@ CHECKS['C19'] = dict(
     pre=lambda: _words_clean(), post=lambda V, p, t: _post_c19(V, p, t),
     stages=[
         dict(name='a64', env={'VERIF_WORDS_DIR': WORDS_DIR}, harness=H('c19', ['harness/c19_a64.cpp', 'emu/a64_host.cpp'], model=True, cflags=['-fno-access-control'], ldflags=PROG_LD + ['-Wl,--wrap=allocMemoryPages'], extra_objs=[lambda V: V.ensure_cross_blob('a64')]),
-             plan={'quick': 'a64_prog=320,a64_dataset=64', 'thorough': 'a64_prog=12000,a64_dataset=2400'}),
+             plan={'quick': 'a64_prog=640,a64_dataset=128', 'thorough': 'a64_prog=12000,a64_dataset=2400'}),
     ],
 )
 
@@ -375,7 +375,7 @@ CHECKS['C20'] = dict(
     pre=lambda: _words_clean(), post=lambda V, p, t: _post_c20(V, p, t),
     stages=[
         dict(name='rv64', env={'VERIF_WORDS_DIR': WORDS_DIR}, harness=H('c20', ['harness/c20_rv64.cpp', 'emu/rv64_host.cpp'], model=True, cflags=['-fno-access-control'], ldflags=PROG_LD + ['-Wl,--wrap=allocMemoryPages'], extra_objs=[lambda V: V.ensure_cross_blob('rv64')]),
-             plan={'quick': 'rv64_prog=320,rv64_dataset=64', 'thorough': 'rv64_prog=12000,rv64_dataset=2400'}),
+             plan={'quick': 'rv64_prog=640,rv64_dataset=128', 'thorough': 'rv64_prog=12000,rv64_dataset=2400'}),
     ],
 )
 
